@@ -178,6 +178,19 @@ def run(chk):
             chk.disagree(c, ("L=[%s] ev=%s" % (L, ev))[:600], ("L=[%s] ev=%s" % (mm.group(2) if mm else "?", m_ev))[:600], "activepeers/stress-trace-replay")
     if si:
         chk.sample(dict(case=st[0], impl=si[0][:300]))
+    # subscriptions taken while the set is changing (two mutator threads, four subscriber threads, real time):
+    # each one must be an exact change log relative to its own snapshot
+    sub = ["subrace %d %d" % (1200 if quick else 10000, chk.rng.randrange(1 << 30))]
+    for c, a in zip(sub, run_impl("activepeers", sub, shards=1, timeout=600)):
+        chk.evaluations += 1
+        chk.nontriv(c)
+        f = dict(x.split("=", 1) for x in a.split() if "=" in x)
+        chk.count("concurrent-subscriptions", int(f.get("subscriptions", 0)))
+        chk.count("changes-during-subscriptions", int(f.get("changes", 0)))
+        if "bad" not in f:
+            chk.monitor_fail("subscription stress crashed: " + a[:200], dict(case=c, impl=a))
+        elif f["bad"] != "0":
+            chk.monitor_fail("%s of %s subscriptions taken while the set was changing are not an exact change log of their own snapshot (first: %s)" % (f["bad"], f["subscriptions"], f["first"].replace("_", " ")), dict(case=c, impl=a))
     # real histories: whole networks on the fabric (dials, disconnects, restarts, partitions); every ActivePeers
     # instance's recorded operations, each with the pre-state it saw, are replayed on ActivePeers.v and the
     # subscriber's events and final listing compared with the model's
